@@ -95,6 +95,9 @@ def sha256_consts(repo):
     if norm("be32dec_vect(W, block, 64); memcpy(S, state, 32);") not in body or \
        norm("for (i = 0; i < 8; i++) state[i] += S[i];") not in body:
         raise ValueError("SHA256_Transform: prologue/epilogue changed")
+    # the length-to-bits conversion cannot be reached by tests (it differs only for len >= 2^61): compare its text
+    if norm("r = (ctx->count >> 3) & 0x3f; ctx->count += (uint64_t)(len) << 3;") not in norm(func_body(src, "SHA256_Update_internal")):
+        raise ValueError("SHA256_Update_internal: bit-count update changed")
     t = HDR % "alg/sha256.c" + "namespace Percival.Gen.Sha256\n"
     t += lean_list("Krnd", "UInt32", K)
     t += lean_list("initialState", "UInt32", iv)
@@ -141,6 +144,10 @@ def sha1_consts(repo):
             "W[i] = ROTL(W[i], 1); } memcpy(S, state, 20);") not in body or \
        norm("for (i = 0; i < 5; i++) state[i] += S[i];") not in body:
         raise ValueError("SHA1_Transform: schedule/prologue/epilogue changed")
+    # the high part of the length (len >> 29) only matters for len >= 512 MiB, out of reach of the tests: compare text
+    if norm("r = (ctx->count[1] >> 3) & 0x3f; bitlen[1] = ((uint32_t)len) << 3; bitlen[0] = (uint32_t)(len >> 29); "
+            "if ((ctx->count[1] += bitlen[1]) < bitlen[1]) ctx->count[0]++; ctx->count[0] += bitlen[0];") not in norm(func_body(src, "SHA1_Update")):
+        raise ValueError("SHA1_Update: bit-count update changed")
     t = HDR % "alg/sha1.c" + "namespace Percival.Gen.Sha1\n"
     t += lean_list("initialState", "UInt32", iv)
     t += lean_list("PAD", "UInt8", pad, per_line=16, fmt="0x%02x")
@@ -180,6 +187,9 @@ def md5_consts(repo):
        norm("for (i = 0; i < 4; i++) state[i] += S[i];") not in body:
         raise ValueError("MD5_Transform: prologue/epilogue changed")
     kind = {"FF": 0, "GG": 1, "HH": 2, "II": 3}
+    if norm("r = (ctx->count[0] >> 3) & 0x3f; bitlen[0] = ((uint32_t)len) << 3; bitlen[1] = (uint32_t)(len >> 29); "
+            "if ((ctx->count[0] += bitlen[0]) < bitlen[0]) ctx->count[1]++; ctx->count[1] += bitlen[1];") not in norm(func_body(src, "MD5_Update")):
+        raise ValueError("MD5_Update: bit-count update changed")
     t = HDR % "alg/md5.c" + "namespace Percival.Gen.Md5\n"
     t += lean_list("initialState", "UInt32", iv)
     t += lean_list("PAD", "UInt8", pad, per_line=16, fmt="0x%02x")
